@@ -24,6 +24,10 @@ pub struct BConfig {
     pub loc_info: bool,
     pub fancy: bool,
     pub custom_lexer: bool,
+    /// LR parser over the right-nulled table (`table_type(LALR_RN)`): the builder then really
+    /// executes right-nulled (shortened) reductions
+    #[serde(default)]
+    pub rn_table: bool,
 }
 
 impl BConfig {
@@ -31,6 +35,8 @@ impl BConfig {
         let mut s = Settings::new();
         if self.glr {
             s = s.parser_algo(ParserAlgo::GLR);
+        } else if self.rn_table {
+            s = s.table_type(rustemo_compiler::TableType::LALR_RN);
         }
         s.builder_type(match self.builder {
             0 => BuilderType::Default,
@@ -46,7 +52,7 @@ impl BConfig {
     pub fn name(&self) -> String {
         format!(
             "{}|{}|{}|loc={}|fancy={}|lexer={}",
-            if self.glr { "GLR" } else { "LR" },
+            if self.glr { "GLR" } else if self.rn_table { "LR(LALR_RN)" } else { "LR" },
             ["default", "generic", "custom"][self.builder.min(2) as usize],
             if self.arrays { "arrays" } else { "functions" },
             self.loc_info as u8,
